@@ -28,16 +28,21 @@ def execute(acc, case):
     h = None
     lp = None
     try:
-        h = appnode.AppHarness(sched, ["S6a"])
+        two = bool(case.get("two_workers"))
+        h = appnode.AppHarness(sched, ["S6a", "Gx"] if two else ["S6a"])
         app = h.app
         worker = h.workers["S6a"]
+        app_of = (lambda i: (16777238 if (two and i % 2 == 0) else 16777251))
+        # with two connections the callers alternate between them and *share* Hop-by-Hop values pairwise: the identifier is
+        # unique per connection only (such requests come from explicit headers, e.g. relayed messages)
+        hbh_of = (lambda i: 0x5000 + (((i + 1) // 2) if two else i) * 7)
         if case["strategy"] != "rr":
             lp = vsched.LinePreemption(sched, files={BB.__file__}).__enter__()
         results = {}
         reqs = {}
         for i in range(1, k + 1):
-            lm = N.app_request(i, host=appnode.LOCAL_HOST, realm=appnode.LOCAL_REALM, dest_realm="remote.example")
-            lm.hbh = 0x5000 + i * 7
+            lm = N.app_request(i, app=app_of(i), host=appnode.LOCAL_HOST, realm=appnode.LOCAL_REALM, dest_realm="remote.example")
+            lm.hbh = hbh_of(i)
             reqs[i] = DiameterMessage.load(R.encode(lm))[0]
 
         def caller(i):
@@ -66,23 +71,22 @@ def execute(acc, case):
                 new = h.sent()[seen:]
                 seen += len(new)
                 for _, m in new:
-                    pending.append(m.header.get_hop_by_hop())
+                    pending.append(N.marker_of(R.decode(m.dump())[0]))
                 if policy == "immediate":
                     todo, pending = pending, []
                 elif policy == "after-all":
                     if seen < k:
                         continue
                     todo, pending = pending, []
-                    todo.sort(key=lambda hb: order.index((hb - 0x5000) // 7))
+                    todo.sort(key=lambda i: order.index(i))
                 else:   # groups
                     if len(pending) < min(2, k - len(answered)):
                         continue
                     todo, pending = pending, []
                     rng.shuffle(todo)
-                for hb in todo:
-                    i = (hb - 0x5000) // 7
-                    am = N.app_answer(i, host="peer0.remote.example", realm="remote.example")
-                    am.hbh = hb
+                for i in todo:
+                    am = N.app_answer(i, app=app_of(i), host="peer0.remote.example", realm="remote.example")
+                    am.hbh = hbh_of(i)
                     ans = DiameterMessage.load(R.encode(am))[0]
                     answered.append(i)
                     dispatch_threads.append(app.create_message_thread(ans))
@@ -125,9 +129,12 @@ def execute(acc, case):
                 return
             acc.violation("request-never-reached-the-wire", "callers %s blocked, their requests were never handed to the connection layer: %s" % (missing, sched.blocked_report()), wit)
             return
-        if worker.pending_answers:
-            acc.violation("pending-registry-not-empty", "%d entries left in the pending-answer registry" % len(worker.pending_answers), wit)
+        left = sum(len(w.pending_answers) for w in h.workers.values())
+        if left:
+            acc.violation("pending-registry-not-empty", "%d entries left in the pending-answer registries" % left, wit)
             return
+        if two:
+            acc.counters["two_connection_executions"] += 1
         acc.counters["callers_matched"] += k
     except vsched.DeadlockError as ex:
         blocked = [t.name for t in sched.tasks if t.name.startswith("caller") and not t.done]
@@ -179,6 +186,12 @@ def main(tier, seed):
         rng.shuffle(order)
         cases.append({"seed": seed * 5003 + 10000 + i, "k": k, "order": order, "policy": rng.choice(["immediate", "after-all", "groups"]),
                       "strategy": "rw", "p": rng.choice([0.05, 0.2, 0.5])})
+    for i in range(40 if q else 4000):
+        k = rng.choice([2, 3, 4, 6])
+        order = list(range(1, k + 1))
+        rng.shuffle(order)
+        cases.append({"seed": seed * 5003 + 80000 + i, "k": k, "order": order, "policy": rng.choice(["immediate", "after-all", "groups"]),
+                      "strategy": rng.choice(["rr", "rw"]), "p": rng.choice([0.05, 0.2]), "two_workers": True})
     for who, span in (("caller", 40), ("dispatch", 30)):
         for nth in range(0, span):
             for policy in (["after-all"] if q else ["immediate", "after-all", "groups"]):
@@ -198,7 +211,7 @@ def main(tier, seed):
     return harness.finish(PROP, tier, seed, "exploration", acc, RULE,
                           ["in-process workers (fake manager); the multi-process deployment of Bromelia.run() is out of reach",
                            "bounded progress: every caller returns within 30 virtual seconds after its answer was dispatched; a deadlock found by the scheduler is definitive"],
-                          t0, require_counters=("executions", "callers_matched", "steps", "real_loopback_ok", "task_parked_during_the_exchange"))
+                          t0, require_counters=("executions", "callers_matched", "steps", "real_loopback_ok", "task_parked_during_the_exchange", "two_connection_executions"))
 
 
 def replay(w):
